@@ -166,8 +166,9 @@ def quote_template_text(s):
     return s.replace("{{", "\\{{")
 
 
-def lit(rng: Rng, v):
-    """a JSON value as a template literal"""
+def lit(rng: Rng, v, nested=False):
+    """a JSON value as a template literal (single-quoted strings only at top level: nested ones are
+    accepted by the grammar but rejected by serde_json – finding F15)"""
     if v is None:
         return "null"
     if v is True:
@@ -183,16 +184,16 @@ def lit(rng: Rng, v):
             return None
         return s
     if isinstance(v, str):
-        return str_lit(rng, v)
+        return str_lit(rng, v, allow_single=not nested)
     if isinstance(v, list):
-        items = [lit(rng, x) for x in v]
+        items = [lit(rng, x, True) for x in v]
         if any(i is None for i in items):
             return None
         return "[" + ", ".join(items) + "]"
     if isinstance(v, dict):
         items = []
         for k, x in v.items():
-            l = lit(rng, x)
+            l = lit(rng, x, True)
             if l is None:
                 return None
             items.append(str_lit(rng, k, allow_single=False) + ": " + l)
